@@ -25,6 +25,12 @@ def time_ns(tok):
     return int(sec) * 1000000000 + int((ns or '0').ljust(9, '0')[:9])
 
 
+def stat_value(a):
+    W = 1 << 64
+    word = lambda k: int(a.get(k, '0')) % W
+    return (1 if a.get('isdir', '0') == '1' else 0) + 2 * (word('atime') + W * (word('mtime') + W * word('ctime')))
+
+
 class Canon:
     def __init__(self):
         self.map = {0: 0, 1: 1, 2: 2}
@@ -130,7 +136,9 @@ class Canon:
             # the value of a successful fstatat is the file's modification time in ns (0 = modified while mdsort ran)
             return 'fstatat %d %s = %s' % (self.h(a['dirfd']), hx(U('path')), self.res(t, time_ns(a.get('st_mtime', 'RUN'))))
         if n == 'stat':
-            return 'stat %s = %s' % (hx(U('path')), self.res(t))
+            # the value of a successful stat is what mdsort reads from it (Model.statDecode): bit 0 = S_ISDIR, then the three
+            # times in seconds (st_atim, st_mtim, st_ctim) as 64-bit two's complement words
+            return 'stat %s = %s' % (hx(U('path')), self.res(t, stat_value(a)))
         if n == 'utimensat':
             def tm(v):
                 return 'omit' if v == 'OMIT' else str(time_ns(v))
@@ -237,7 +245,9 @@ class WorldCheck:
         env = ' '.join([proc.PIN['VSHIM_TIME'], proc.PIN['VSHIM_PID'], hx(proc.PIN['VSHIM_HOST'].encode()), proc.PIN['VSHIM_RANDOM'],
                         hx(os.path.join(scen.root, 'tmp').encode()), hx(os.path.join(scen.root, 'home').encode()),
                         hx(b'conf' if relative else os.path.join(scen.root, 'conf').encode()), '1' if dry else '0', '1' if syntax else '0', '1' if stdin else '0',
-                        '1' if confok else '0'])
+                        '1' if confok else '0',
+                        # the zone `time_format` (file-time date conditions) formats in: TZ of the run, `-` = unset
+                        hx((scen.env_extra.get('TZ') or '').encode('latin-1'))])     # None = the scenario unsets TZ (ce13)
         files = []
         dirs = set()
         for rel, (kind, data, mt) in scen.initial.items():
@@ -299,6 +309,10 @@ def compare(scen, result, answer):
         return 'diverge', answer
     if answer.startswith('IMPOSSIBLE'):
         return 'impossible', answer
+    if answer.startswith('FUELOUT'):
+        # a readdir loop of the model stopped because its fuel ran out (MainSt.fuelOut), not because the directory
+        # stream ended: the model's run is a truncation of the real one - a divergence, never an agreement
+        return 'diverge', 'the model ran out of fuel in a readdir loop: ' + answer
     if not answer.startswith('OK'):
         return 'bad', answer[:300]
     m = re.match(r'OK exit=(\d+) reject=(\w+)( EXTRA \d+ next=.*?)? FS (.*?) LOG ?(.*)$', answer)
